@@ -11,13 +11,15 @@ import (
 // A000-BFFF) plus the verif hooks VerifRTCSet/Get/Tick/Increment to place and observe the counters.
 //
 // ops:  reset                              32 KiB image, type 0x10 (MBC3+TIMER+RAM+BATT), RAM size 3,
-//                                          then Write(0x0000, 0x0a)                      -> ok
-//       set <s> <m> <h> <d> <carry> <halt> <ticks>   (decimal) VerifRTCSet               -> <get>
-//       tick <n>                           n x VerifRTCTick                              -> <get>
-//       inc                                VerifRTCIncrement                             -> <get>
-//       get                                VerifRTCGet                                   -> <get>
-//       w <addr4> <val2>                   Mapper.Write                                  -> ok | crash
-//       r <addr4>                          Mapper.Read                                   -> <val2> | crash
+//
+//	                                   then Write(0x0000, 0x0a)                      -> ok
+//	set <s> <m> <h> <d> <carry> <halt> <ticks>   (decimal) VerifRTCSet               -> <get>
+//	tick <n>                           n x VerifRTCTick                              -> <get>
+//	inc                                VerifRTCIncrement                             -> <get>
+//	get                                VerifRTCGet                                   -> <get>
+//	w <addr4> <val2>                   Mapper.Write                                  -> ok | crash
+//	r <addr4>                          Mapper.Read                                   -> <val2> | crash
+//
 // <get> = "ss mm hh dddd carry halt ticks" (hex fields, 0/1 flags, decimal sub-second count): the live
 // counters, about which C10's theorems speak directly.
 func init() { modes["rtc"] = modeFn{gen: rtcGen, replay: rtcReplay} }
@@ -108,6 +110,9 @@ func rtcGen(c *ctx) {
 	// carry point and the upper fields at boundary values.
 	incs := 0
 	step := func(s, m, h, d, carry int) {
+		if incs%8 == 0 {
+			r.do("reset") // keep replays short: the shrinker cuts at the last reset
+		}
 		r.set(s, m, h, d, carry, 0, 5)
 		out := r.do("inc")
 		incs++
@@ -159,6 +164,7 @@ func rtcGen(c *ctx) {
 	for _, t0 := range []int{0, 1, P - 70, P - 3, P - 2, P - 1} {
 		for _, n := range []int{0, 1, 2, 3, 5, 64, 69, 70, 71} {
 			for halt := 0; halt < 2; halt++ {
+				r.do("reset")
 				r.set(59, 59, 23, 511, 0, halt, t0)
 				out := r.do(fmt.Sprintf("tick %d", n))
 				c.class(fmt.Sprintf("tick/%d/%d/%d->%s", t0, n, halt, out))
@@ -174,6 +180,7 @@ func rtcGen(c *ctx) {
 		full = 5
 	}
 	for k := 0; k < full; k++ { // whole seconds, cycle by cycle in the real code
+		r.do("reset")
 		r.set(58+k%2, 59, 23, 511, 0, 0, k)
 		r.do(fmt.Sprintf("tick %d", P-k-1))
 		r.do("tick 1")
@@ -197,6 +204,9 @@ func rtcGen(c *ctx) {
 		for v := 0; v < 256; v++ {
 			if !c.thorough() && sel >= 0x0d && v%16 != 0 {
 				continue
+			}
+			if v%8 == 0 {
+				r.do("reset")
 			}
 			r.set(1, 2, 3, 0x155, v&1, 0, 99)
 			r.do(fmt.Sprintf("w 4000 %02x", sel))
